@@ -133,8 +133,13 @@ Theorem C14_evolution_inv : forall ops s t, evo_wf s -> forallb op_ok ops = true
        /\ t_cols t' = class_cols (e_decl (fst (evo_run s ops)))
        /\ forall x, In x (t_cols t) -> kept x s ops -> cells_kept t t' x.
 Proof. exact evo_run_ok. Qed.
-(* full strength -- also for ops the engine refuses -- is false: the class is changed first *)
-Theorem C14_evolution_refuted : ~ evolution_full.
+(* full strength -- one step, also for ops the engine refuses: class columns = table columns
+   afterwards -- is false: the class is changed first *)
+Definition C14_evolution_full : Prop :=
+  forall s op t, evo_wf s -> the_table s = Some t ->
+  exists t', the_table (fst (evo_step s op)) = Some t'
+             /\ t_cols t' = class_cols (e_decl (fst (evo_step s op))).
+Theorem C14_evolution_refuted : ~ C14_evolution_full.
 Proof. exact evolution_refuted. Qed.
 (* and the declared indexes do not survive delColumn on sqlite *)
 Theorem C14_evolution_index_refuted :
